@@ -14,6 +14,31 @@ OPT_SECTION = ("# Options:\n"
                "#   --level=LEVEL        Level.\n")
 
 
+# second table: long names that are prefixes of one another, a flag against a valued option, a lone short flag
+OPTS2 = [(None, "all", False, None), (None, "all-units", False, None), (None, "allow", True, None), ("a", None, False, None)]
+OPT_SECTION2 = ("# Options:\n"
+                "#   --all            All.\n"
+                "#   --all-units      All units.\n"
+                "#   --allow=<x>      Allow x.\n"
+                "#   -a               Short a.\n")
+# third table: defaults followed by more text, by a full stop, in the middle of the description
+OPTS3 = [("s", "speed", True, "10"), ("m", "mode", True, "fast"), ("q", None, False, None), (None, "depth", True, "3")]
+OPT_SECTION3 = ("# Options:\n"
+                "#   -s, --speed=<kn>      Speed [default: 10] in knots\n"
+                "#   -m MODE, --mode=MODE  Mode [default: fast].\n"
+                "#   -q                    Quiet.\n"
+                "#   --depth=<n>           How deep [default: 3] (levels)\n")
+TABLES = {True: (OPTS, OPT_SECTION), "T2": (OPTS2, OPT_SECTION2), "T3": (OPTS3, OPT_SECTION3)}
+
+
+def opts_of(wo):
+    return TABLES[wo][0] if wo else []
+
+
+def section_of(wo):
+    return TABLES[wo][1] if wo else ""
+
+
 def cname(o):
     return o[1] if o[1] else o[0]
 
@@ -96,7 +121,7 @@ def script_text(lines, with_opts):
         u = "# Usage: prog %s\n" % show(lines[0])
     else:
         u = "# Usage:\n" + "".join("#   prog %s\n" % show(l) for l in lines)
-    return "#!/usr/bin/env rash\n#\n" + u + "#\n" + (OPT_SECTION if with_opts else "") + "- debug:\n    msg: x\n"
+    return "#!/usr/bin/env rash\n#\n" + u + "#\n" + section_of(with_opts) + "- debug:\n    msg: x\n"
 
 
 # ---------------------------------------------------------------- enumeration of usages
@@ -169,6 +194,57 @@ def enum_usages(tier, rng):
     for u in rng.sample(withopt, min(no, len(withopt))):
         usages.append((u, True))
     return usages
+
+
+def family_usages():
+    """targeted families the small-scope enumeration cannot reach: (lines, table, argvs)"""
+    out = []
+    o = lambda n, sp: ('opt', n, sp)
+    opt = lambda e: ('optional', e)
+    x, y, a, b = ('pos', 'x'), ('pos', 'y'), ('cmd', 'a'), ('cmd', 'b')
+    # F1: option names sharing a prefix, allowed in different places
+    t2 = ['--all', '--all-units', '--allow=v', '--allow', 'v', 'a', '-a', 'b']
+    av2 = [list(t) for n in range(0, 4) for t in itertools.product(t2, repeat=n)]
+    for ls in ([[('seq', [opt(o('all-units', '--all-units')), x])], [('seq', [a, opt(o('all', '--all'))])]],
+               [[('seq', [opt(o('all', '--all')), x])], [('seq', [a, opt(o('all-units', '--all-units'))])]],
+               [[('seq', [opt(o('allow', '--allow=<x>')), y])], [('seq', [a, opt(o('all', '--all'))])]],
+               [[('seq', [opt(o('all', '--all')), x])], [('seq', [b, opt(o('allow', '--allow=<x>')), y])]],
+               [[('seq', [opt(o('all-units', '--all-units')), opt(o('a', '-a')), x])]],
+               [[('seq', [('group', ('alt', [o('all', '--all'), o('all-units', '--all-units')])), x])]]):
+        out.append(([l[0] for l in ls], "T2", av2))
+    # F2: repeated groups of two words with options around them, two and three repetitions
+    words = ['v', 'w', 'a', '-f', '-q', '--force']
+    long_av = []
+    for reps in (1, 2, 3):
+        body = ['v', 'w'] * reps
+        long_av.append(body)
+        for optw in ('-f', '--force', '-q'):
+            for pos in range(0, len(body) + 1):
+                long_av.append(body[:pos] + [optw] + body[pos:])
+        long_av.append(body[:-1])
+        long_av.append(['-f'] + body + ['v'])
+        long_av.append(['a'] + body)
+        long_av.append(['a', '-f'] + body)
+        long_av.append(['-f', '-q'] + body)
+    f = o('force', '-f')
+    qf = o('q', '-q')
+    for l in ([('seq', [opt(f), ('rep', ('group', ('seq', [x, y])))])], [('seq', [('rep', ('group', ('seq', [x, y]))), opt(qf)])],
+              [('seq', [('anyopts',), ('rep', ('group', ('seq', [x, y])))])], [('seq', [a, opt(f), ('rep', ('group', ('seq', [x, y])))])],
+              [('seq', [opt(f), opt(qf), ('rep', ('group', ('seq', [x, y])))])], [('seq', [opt(f), ('rep', x)])],
+              [('seq', [opt(f), x, ('rep', y)])]):
+        out.append((l, True, long_av))
+    # F3: several usage lines, `[options]` on one, an option of the options section named explicitly on another
+    av3 = [list(t) for n in range(0, 4) for t in itertools.product(['a', 'b', 'v', '-f', '-q', '--force'], repeat=n)]
+    for ls in ([('seq', [a, ('anyopts',), x])], [('seq', [b, opt(f)])]), ([('seq', [a, opt(qf), x])], [('seq', [b, ('anyopts',)])]), \
+              ([('seq', [a, ('anyopts',)])], [('seq', [b, ('anyopts',), x])]), ([('seq', [a, opt(f)])], [('seq', [b, opt(f), x])], [('seq', [('anyopts',), y])]):
+        out.append(([l[0] for l in ls], True, av3))
+    # F4: defaults followed by text; values containing `=`
+    t4 = ['a', 'v', '-s', '5', '--speed=5', '-s5', '-q', '--mode', 'slow', '-mk=v', '--depth=k=v', '-m=k=v']
+    av4 = [list(t) for n in range(0, 4) for t in itertools.product(t4, repeat=n)]
+    sp, md, dp, q3 = o('speed', '--speed=<kn>'), o('mode', '-m MODE'), o('depth', '--depth=<n>'), o('q', '-q')
+    for l in ([('seq', [('anyopts',), x])], [('seq', [opt(sp), opt(q3), x])], [('seq', [opt(md), opt(dp), ('optional', x)])], [('seq', [a, ('anyopts',)])]):
+        out.append((l, "T3", av4))
+    return out
 
 
 WORDS = ['a', 'b', 'v', 'w']
@@ -270,7 +346,7 @@ def run_reference(usages_argvs):
     None (unspellable) or dict(toks=[...], matches=[canonical...])"""
     lines = []
     for ls, wo, avs in usages_argvs:
-        lines.append(sx(["docoptm", table_sx(OPTS if wo else []), ["lines"] + [pat_sx(l) for l in ls],
+        lines.append(sx(["docoptm", table_sx(opts_of(wo)), ["lines"] + [pat_sx(l) for l in ls],
                          ["argvs"] + [[hx(w) for w in av] for av in avs]]))
     outs = C.run_oracle(lines)
     res = []
